@@ -26,6 +26,18 @@ theorem sum_eq (l : List Int) : Py.sum l = l.sum := by
 theorem index_neg_one {α : Type} (l : List α) (a : α) : Py.index (l ++ [a]) (-1) = .ok a := by
   simp [Py.index]; omega
 
+theorem index_nat {α : Type} (l : List α) (i : Nat) (h : i < l.length) : Py.index l (i : Int) = .ok l[i] := by
+  simp [Py.index, h]
+
+theorem index_nat_none {α : Type} (l : List α) (i : Nat) (h : l.length ≤ i) : Py.index l (i : Int) = .error .indexError := by
+  simp [Py.index, h]
+
+@[simp] theorem index_zero {α : Type} (a : α) (l : List α) : Py.index (a :: l) 0 = .ok a := by
+  simp [Py.index]
+
+@[simp] theorem index_one {α : Type} (a b : α) (l : List α) : Py.index (a :: b :: l) 1 = .ok b := by
+  simp [Py.index]
+
 theorem pop_append {α : Type} (l : List α) (a : α) : Py.pop (l ++ [a]) = .ok (a, l) := by
   simp [Py.pop]
 
